@@ -289,10 +289,38 @@ def strain_factor(rep):
             rep.check(okb, "strain-factor", f"{base}::bound>=0",
                       f"removal bound `{bname}` is not provably non-negative", node=pred)
         # ages <= 1 are never selected (the value just computed and its operands)
-        age_guard = any(isinstance(n, ast.If) and isinstance(n.test, ast.Compare)
-                        and isinstance(n.test.ops[0], ast.Gt)
-                        and const_value(n.test.comparators[0]) == 1
-                        for n in ast.walk(loop))
+        def gt1(test, inbody):
+            """the branch taken implies  <age> > 1  (ages are integers)"""
+            if not (isinstance(test, ast.Compare) and len(test.ops) == 1):
+                return False
+            c = const_value(test.comparators[0])
+            op = type(test.ops[0]).__name__
+            if c is None:
+                return False
+            if inbody:
+                return (op == "Gt" and c >= 1) or (op == "GtE" and c >= 2)
+            return (op == "LtE" and c >= 1) or (op == "Lt" and c >= 2)
+        age_guard = True
+        n_nonzero = 0
+        for node in ast.walk(loop):
+            if isinstance(node, ast.Assign) and len(node.targets) == 1 \
+                    and isinstance(node.targets[0], ast.Name) \
+                    and any(node.targets[0].id == p_.test.left.id for p_ in preds) \
+                    and const_value(node.value) != 0:
+                n_nonzero += 1
+                child, anc, found = node, getattr(node, "_parent", None), False
+                while anc is not None and anc is not loop:
+                    if isinstance(anc, ast.If):
+                        inbody = any(child is x for x in anc.body)
+                        if gt1(anc.test, inbody):
+                            found = True
+                    child, anc = anc, getattr(anc, "_parent", None)
+                age_guard = age_guard and found
+        if li == 0 and n_nonzero == 0:
+            raise AnalysisError("cleanup_cache: no non-zero strain assignment in the first scan")
+        if li != 0:
+            # the memory-pressure scan applies the same age test around its strain
+            age_guard = age_guard and n_nonzero > 0
         rep.check(age_guard, "strain-factor", f"{base}::age>1",
                   "entries accessed within the last calculation must have strain 0", node=loop)
 
